@@ -372,6 +372,12 @@ package decorator
 //@ ensures ready: pr.readyInv()
 //@ modifies allbut(heap(Package.Syntax); heap(Package.Decorator); heap(Package.Dir); heap(Decorator.Filenames); elems(*dst.File); map(*dst.File, string))
 
+// The constructor save uses: the restorer it returns carries the path and the resolver it was given
+// (inlined at call sites; this contract is discharged on its own body).
+//@ func NewRestorerWithImports
+//@ attr inline = true
+//@ ensures built_for_path: result != nil && result.Path == path && result.Resolver == resolver
+
 //@ func (p *Package) save
 //@ ensures all_written: result == nil ==> nwrites == old(nwrites) + len(p.Syntax)
 //@ ensures at_most_one_each: nwrites >= old(nwrites) && nwrites - old(nwrites) <= len(p.Syntax)
